@@ -18,32 +18,32 @@ type StructOpts struct {
 	Depth    int
 	// AllowArrayAssign lets [N]T -> []T appear at assignment positions (known finding F-C02-array-assign).
 	AllowArrayAssign bool
-	TopKind  string // force the top-level source constructor: "", basic, named, ptr, slice, array, map, struct, nstruct
-	Hostile  bool   // hostile identifier names
-	Monitors []string
-	HostilePkgs bool
-	NConverters int
+	TopKind          string // force the top-level source constructor: "", basic, named, ptr, slice, array, map, struct, nstruct
+	Hostile          bool   // hostile identifier names
+	Monitors         []string
+	HostilePkgs      bool
+	NConverters      int
 	// CLIPackage: a CLI-level output:package PATH:NAME that every converter overrides with its own PATH
 	CLIPackage bool
 	// MethodSkipCopy: skipCopySameType is written on the first method only (siblings and shared sub-methods must deep-copy)
 	MethodSkipCopy bool
-	NValues  int
-	Seed     int64
+	NValues        int
+	Seed           int64
 }
 
 type sgen struct {
-	r      *rand.Rand
-	o      StructOpts
-	src    *Package
-	tgt    *Package
-	memo   map[*Decl]*Decl
-	open   map[*Decl]bool
-	nDecl  int
-	names  *namePool
-	decls  []*Decl // source decls (for reuse / recursion)
-	arrAssign bool
+	r          *rand.Rand
+	o          StructOpts
+	src        *Package
+	tgt        *Package
+	memo       map[*Decl]*Decl
+	open       map[*Decl]bool
+	nDecl      int
+	names      *namePool
+	decls      []*Decl // source decls (for reuse / recursion)
+	arrAssign  bool
 	genS, genT *Decl
-	embN int
+	embN       int
 }
 
 var basics = []string{"int", "int8", "int16", "int32", "int64", "uint", "uint8", "uint16", "uint32", "uint64", "float32", "float64", "string", "bool", "complex128", "rune", "byte"}
